@@ -262,7 +262,14 @@ func headerString(f *Func) string {
 		fmt.Fprintf(buf, " partition %s", quote(f.Partition))
 	}
 	if f.Comdat != nil {
-		if f.Comdat.Name == f.Name() {
+		// The comdat name is omitted when it is the name of the function itself
+		// (the name, not its display form: Name() returns all-digit names in
+		// quotes); the parser reads a bare `comdat` the same way.
+		implicit := f.GlobalName
+		if f.IsUnnamed() {
+			implicit = f.Name()
+		}
+		if f.Comdat.Name == implicit {
 			buf.WriteString(" comdat")
 		} else {
 			fmt.Fprintf(buf, " %s", f.Comdat)
